@@ -172,15 +172,18 @@ func c15retFor(s *c15sig, k int, errMode bool) (want any, wantErr error) {
 
 // ---- options -------------------------------------------------------------------
 
-type c15opt struct{ strict, array int } // 0 unset, 1 true, 2 false
+type c15opt struct {
+	strict, array int    // 0 unset, 1 true, 2 false
+	note          string // what happened to the FuncInfo after Wrap (c15_rewrap.go)
+}
 
-func (o c15opt) String() string { return fmt.Sprintf("strict%d/array%d", o.strict, o.array) }
+func (o c15opt) String() string { return fmt.Sprintf("strict%d/array%d", o.strict, o.array) + o.note }
 
 func c15allOpts() []c15opt {
 	var out []c15opt
 	for s := 0; s < 3; s++ {
 		for a := 0; a < 3; a++ {
-			out = append(out, c15opt{s, a})
+			out = append(out, c15opt{strict: s, array: a})
 		}
 	}
 	return out
@@ -517,8 +520,10 @@ var c15generic = []string{
 	`{ "A" : 1 }`, `[{"X":1,"Y":"y"}]`, `{"X":1,"Y":"y","Z":3}`, `[1,"s",true,1.5,[1],{"k":1}]`, `["<&>"]`,
 	`{"k":"<&>"}`, `[null,null]`, `{"alpha":1,"beta":"b","D":2.5}`, `{"inner":{"X":1},"Z":2}`, `[{"X":1},2]`,
 	`{"A":1,"B":2}`, `{"A":1,"B":"b","C":3}`, `["s"]`, `[[],{}]`, `{"k":1,"j":2}`,
+	`[9007199254740993]`, `[2.0]`, `[-0]`, `[1e3,"s"]`, `[9223372036854775807,"s"]`, `{"A":9007199254740993}`, `{"A":2.0}`,
+	`[18446744073709551615]`, `{"k":9007199254740993}`,
 	// not arrays or objects (built directly, see c15request)
-	`5`, `"s"`, `true`, `1.5`, `-0`, `1e400`, `"2024-01-02T03:04:05Z"`,
+	`5`, `"s"`, `true`, `1.5`, `-0`, `1e400`, `"2024-01-02T03:04:05Z"`, `9007199254740993`, `2.0`, `1e3`,
 }
 
 func c15obj(pairs ...string) string { return "{" + strings.Join(pairs, ",") + "}" }
@@ -539,9 +544,15 @@ func c15paramsFor(X reflect.Type, r *rand.Rand) []string {
 		return out
 	}
 	S, isStruct := c15structOf(X)
+	nums := c15numTexts(r)
 	if !isStruct {
 		for i := 0; i < 5; i++ {
 			out = append(out, c15good(X, r, 0))
+		}
+		for _, num := range nums {
+			if v, ok := c15numInto(X, num, 0); ok && r.IntN(3) == 0 {
+				out = append(out, v)
+			}
 		}
 		for i := 0; i < 3; i++ {
 			if b, ok := c15bad(X, r); ok {
@@ -622,6 +633,22 @@ func c15paramsFor(X reflect.Type, r *rand.Rand) []string {
 		}
 		if ft.Kind() == reflect.Struct && ft != c15timeType {
 			out = append(out, arr(n, i, `{"zz_nested":1}`))
+		}
+	}
+	// numbers that are more than their float64 value (c15numTexts), at every
+	// field that has a numeric leaf: all of them in array form, some as objects
+	for i, f := range el {
+		for _, num := range nums {
+			if v, ok := c15numField(f, num, 1); ok {
+				out = append(out, arr(n, i, v))
+			}
+		}
+	}
+	for _, f := range fields {
+		for _, num := range nums {
+			if v, ok := c15numField(f, num, 1); ok && r.IntN(5) == 0 {
+				out = append(out, c15obj(c15kv(f.name, v)))
+			}
 		}
 	}
 	if n > 0 {
@@ -936,7 +963,7 @@ func c15runGrammarBlock(c *vt.Ctx, lo, hi int) {
 				X = it[1]
 			}
 			s := c15makeSig(X, ot)
-			for _, o := range []c15opt{{0, 0}, {1, 2}} {
+			for _, o := range []c15opt{{strict: 0, array: 0}, {strict: 1, array: 2}} {
 				h, err := c15wrap(s.fn, o)
 				if err != nil {
 					c.Failf("%s %s: %v", s.name, o, err)
@@ -1053,12 +1080,17 @@ func init() {
 	vt.Register(&vt.Check{
 		Prop:  "C15",
 		Level: "exploration",
-		Rule: "parameter types X = 35 non-struct types + 34 hand-written struct types (tagged/untagged/embedded/unexported/strict/custom-decoder fields) as T, *T (and **T for some) + seeded reflect.StructOf types, " +
+		Rule: "parameter types X = 35 non-struct types + 36 hand-written struct types (tagged/untagged/embedded/unexported/strict/custom-decoder fields, every integer/float width, json.Number, json.RawMessage) as T, *T (and **T for some) + seeded reflect.StructOf types, " +
 			"each as 3 reflect.MakeFunc functions func(ctx,X) error | Y | (Y,error) that capture their arguments (plus 10 hand-written functions, no-parameter and *jrpc2.Request signatures), " +
 			"x SetStrict {unset,true,false} x AllowArray {unset,true,false} (unset/unset through handler.New) x ~50 generic params texts + texts derived from X " +
-			"(objects: full, single field, wrong type, null, unknown/nested-unknown/duplicate/case-folded keys; arrays of every length 0..n+2, wrong element, nulls) x error mode; " +
+			"(objects: full, single field, wrong type, null, unknown/nested-unknown/duplicate/case-folded keys; arrays of every length 0..n+2, wrong element, nulls; " +
+			"number texts that are more than their float64 value - integers beyond 2^53, the limits of every integer width and their neighbours, 2^64 and beyond, spellings with fraction or exponent (2.0, 1e3, -0, 0.0), float32/float64 edges, plus seeded members of these classes - " +
+			"placed at every numeric leaf (field, slice/array/map element, nested struct field, any, json.Number, json.RawMessage) of every array-eligible field in array form and of seeded fields in object form) x error mode; " +
 			"each handler invocation judged against encoding/json applied directly (evaluations = handler invocations + Check calls judged). " +
 			"Check: every signature with <=3 parameters over 7 types (+variadic) and <=3 results over 5 types, plus nil/non-function values. " +
+			"One FuncInfo, several handlers (W, WG): Check once, then 6 seeded SetStrict/AllowArray settings covering all four pairs (seeded setter order, only-the-changed-flag, via the opposite value, or the untouched defaults), Wrap after each; " +
+			"then every handler is run on all params texts while the FuncInfo holds the last setting (phase A), after the FuncInfo was set to the exact opposite of the handler's setting (phase B), and with the FuncInfo flipped between any two calls (phase C); " +
+			"each handler is judged by the oracle with the settings in force when Wrap produced it (struct zoo as T and *T, 7 non-struct types, seeded generated structs). " +
 			"distinct_nontrivial = distinct (signature, options, params text) where a declared parameter type had present params to decode or refuse " +
 			"(absent/null params and signatures without parameter or with *jrpc2.Request are evaluated but not counted)",
 		Assumptions: []string{
@@ -1066,11 +1098,12 @@ func init() {
 			"function values are non-nil (a typed nil func is accepted by Check and can only panic when called)",
 			"struct parameter types have distinct JSON keys and no anonymous field tagged without a name; params are valid JSON without surrounding white space",
 			"for a struct without array-eligible field the array form [] may be accepted or refused (documentation silent); for a function without parameter present params may be refused or ignored",
-			"json.RawMessage values that went through the array-to-field mapping are compared as JSON values, elsewhere byte for byte",
+			"json.RawMessage values that went through the array-to-field mapping are compared as JSON values (numbers by their text, as json.Number), elsewhere byte for byte",
+			"a handler has the SetStrict/AllowArray settings in force when Wrap returned it (documentation of SetStrict/AllowArray: the flag determines the wrapper fi generates); the FuncInfo is not modified while a handler built from it is running",
 		},
 		Require: map[string]int64{
 			"functions_called": 5000, "rejected_invalid_params": 5000, "check_rejections": 500, "check_accepts": 50,
-			"array_form_calls": 500, "unknown_field_rejections": 200,
+			"array_form_calls": 500, "unknown_field_rejections": 200, "calls_after_funcinfo_changed": 20000,
 		},
 		Cases: c15cases,
 	})
@@ -1155,4 +1188,6 @@ func c15cases(e vt.Env, yield func(vt.Case) bool) {
 			return
 		}
 	}
+	// W, WG: several handlers built from one FuncInfo that is modified afterwards.
+	c15rewrapCases(e, yield)
 }
